@@ -15,6 +15,14 @@ pub struct StreamCfg {
 }
 
 pub fn run(args: &Args, cfg: &StreamCfg, rep: &mut Report, f: &mut dyn FnMut(&Pos, &mut Report, &mut StdRng)) {
+    run_carried(args, cfg, rep, &mut |p, rep, rng, _| f(p, rep, rng));
+}
+
+/// Like `run`, but additionally carries one board of the code under test along every walk through
+/// its own `make` (moves looked up by their UCI text), so that state which only arises from a
+/// *sequence* of moves on the real board (rights flags, e.p. square, clocks) is observed too.
+/// The callback receives the carried board (None once a move could not be found or a call panicked).
+pub fn run_carried(args: &Args, cfg: &StreamCfg, rep: &mut Report, f: &mut dyn FnMut(&Pos, &mut Report, &mut StdRng, Option<&mut inkayaku_board::Bitboard>)) {
     let mut rng = gen::rng(args.seed, args.shard, 1);
     let mut starts = Starts::new(cfg.max_half, cfg.max_full, (args.shard as usize) * 7 + (args.seed as usize % 1000));
     let per_shard = (cfg.positions / args.nshards.max(1)).max(1);
@@ -29,9 +37,10 @@ pub fn run(args: &Args, cfg: &StreamCfg, rep: &mut Report, f: &mut dyn FnMut(&Po
         };
         let len = rng.gen_range(1..=max);
         let mut cur = start.clone();
+        let mut carried = crate::adapter::load(&start).ok();
         walks += 1;
         for _ in 0..len {
-            f(&cur, rep, &mut rng);
+            f(&cur, rep, &mut rng, carried.as_mut());
             visited += 1;
             if visited >= per_shard {
                 break;
@@ -41,6 +50,13 @@ pub fn run(args: &Args, cfg: &StreamCfg, rep: &mut Report, f: &mut dyn FnMut(&Po
                 break;
             }
             let m = gen::choose(&mut rng, &cur, &legal, policy);
+            carried = match carried {
+                Some(mut bb) => {
+                    let u = m.uci();
+                    match monlib::guarded_mut(|| { match crate::adapter::find_move(&bb, &u) { Some(mv) => { bb.make(mv); Some(bb) } None => None } }) { Ok(x) => x, Err(_) => None }
+                }
+                None => None,
+            };
             cur = cur.make(m);
             // keep clocks inside the engine's representable range
             if cur.half > cfg.max_half || cur.full > cfg.max_full {
